@@ -60,8 +60,9 @@ func (o Op) String() string {
 
 // Fault describes what to do at a chosen operation.
 type Fault struct {
-	Kind string // "error" | "short" | "revoke"
+	Kind string // "error" | "short" | "revoke" | "silent" | "torn" (a write persists Keep bytes, then the client is stopped)
 	Err  error
+	Keep int // torn: bytes of the write that persist
 }
 
 var ErrInjected = errors.New("fsx: injected I/O error")
@@ -164,9 +165,22 @@ type Client struct {
 	b       *Backend
 	name    string
 	revoked atomic.Bool
+	keep    atomic.Int64 // bytes a torn write persists (-1: half of it)
 }
 
-func (b *Backend) Client(name string) *Client { return &Client{b: b, name: name} }
+func (b *Backend) Client(name string) *Client {
+	c := &Client{b: b, name: name}
+	c.keep.Store(-1)
+	return c
+}
+
+// part is what a short / torn write persists of n bytes.
+func (c *Client) part(n int) int {
+	if k := c.keep.Load(); k >= 0 && int(k) <= n {
+		return int(k)
+	}
+	return n / 2
+}
 
 // Revoke makes this and every later operation of the client fail without effect: the model of a
 // process stop at an operation boundary.
@@ -244,6 +258,14 @@ func (c *Client) doP(opp *Op, exec func(short bool) (int, error)) (int, error) {
 				err = fault.Err
 			}
 		}
+	case fault.Kind == "torn" && (op.Kind == "write" || op.Kind == "writeat" || op.Kind == "writestring"):
+		// a process stop in the middle of a write: part of the data persists, the client is gone
+		op.Injected = true
+		c.keep.Store(int64(fault.Keep))
+		n, _ = exec(true)
+		c.keep.Store(-1)
+		c.revoked.Store(true)
+		err = ErrRevoked
 	case fault.Kind == "silent" && (op.Kind == "write" || op.Kind == "writeat" || op.Kind == "writestring"):
 		// a write that persists only part of the data yet reports complete success
 		op.Injected = true
@@ -529,7 +551,7 @@ func (f *File) Seek(offset int64, whence int) (int64, error) {
 func (f *File) Write(p []byte) (int, error) {
 	n, err := f.c.do(f.wop("write", len(p)), func(short bool) (int, error) {
 		if short {
-			return f.File.Write(p[:len(p)/2])
+			return f.File.Write(p[:f.c.part(len(p))])
 		}
 		return f.File.Write(p)
 	})
@@ -540,7 +562,7 @@ func (f *File) Write(p []byte) (int, error) {
 func (f *File) WriteAt(p []byte, off int64) (int, error) {
 	n, err := f.c.do(f.wop("writeat", len(p)), func(short bool) (int, error) {
 		if short {
-			return f.File.WriteAt(p[:len(p)/2], off)
+			return f.File.WriteAt(p[:f.c.part(len(p))], off)
 		}
 		return f.File.WriteAt(p, off)
 	})
@@ -551,7 +573,7 @@ func (f *File) WriteAt(p []byte, off int64) (int, error) {
 func (f *File) WriteString(s string) (int, error) {
 	n, err := f.c.do(f.wop("writestring", len(s)), func(short bool) (int, error) {
 		if short {
-			return f.File.WriteString(s[:len(s)/2])
+			return f.File.WriteString(s[:f.c.part(len(s))])
 		}
 		return f.File.WriteString(s)
 	})
